@@ -274,11 +274,26 @@ def rule_paren(ctx, rep):
                                 "returns Ok writes `(` before the operands and `)` after them (the mechanism that makes re-association impossible)", floor=2)
     from vlib.mir import explore
     ov = renderer_overrides(ctx)
-    for m in ("visit_binary_expr", "visit_compare_expr"):
-        b = ov.get(m)
-        if b is None:
-            r.finding(m + "|missing", "plc2plc/src/renderer.rs", "the renderer has no %s override" % m)
+    # every function of the renderer that renders the two operands of a binary / comparison expression (it reads both
+    # `left` and `right` of such a node) - the Visitor overrides and any helper they delegate to
+    targets = {}
+    for b0 in ctx.prog.bodies.values():
+        if b0.f["crate"] != "ironplc_plc2plc" or b0.f["dk"] == "Closure":
             continue
+        flds = set()
+        for _, k, p in b0.place_uses():
+            if k == "write":
+                continue
+            for x in b0.root(p)[1]:
+                if isinstance(x, list) and x[0] == "f" and x[3] in ("ironplc_dsl::textual::BinaryExpr", "ironplc_dsl::textual::CompareExpr"):
+                    flds.add((x[3], x[2]))
+        for adt in ("ironplc_dsl::textual::BinaryExpr", "ironplc_dsl::textual::CompareExpr"):
+            if (adt, "left") in flds and (adt, "right") in flds:
+                targets[norm(b0.id).split("::")[-1] + "|" + adt.split("::")[-1]] = b0
+    for need in ("visit_binary_expr|BinaryExpr", "visit_compare_expr|CompareExpr"):
+        if need not in targets and need.split("|")[0] not in ov:
+            r.finding(need + "|missing", "plc2plc/src/renderer.rs", "the renderer has no %s override" % need.split("|")[0])
+    for m, b in sorted(targets.items()):
 
         def step(st, bb, b=b):
             o, c, err = st
